@@ -12,6 +12,11 @@ from ..graph.maskable_graph import MaskableGraph
 from ..arch.registers import Register
 
 
+def _ordered(registers):
+    """Registers in an order that does not depend on their hash values."""
+    return sorted(registers, key=lambda r: (type(r).__name__, r.name))
+
+
 class InterferenceGraphNode(Node):
     """Node in an interference graph. Represents a single register"""
 
@@ -52,18 +57,19 @@ class InterferenceGraph(MaskableGraph):
         for n in flowgraph:
             for ins in n.instructions:
                 # ins.live_out |= ins.
-                for tmp in ins.live_in:
+                for tmp in _ordered(ins.live_in):
                     self.get_node(tmp)
 
                 # Live out and zero length defined variables:
-                live_and_def = ins.live_out | ins.kill
+                live_and_def = _ordered(ins.live_out | ins.kill)
 
                 # Add interfering edges:
                 for tmp in live_and_def:
                     n1 = self.get_node(tmp)
-                    for tmp2 in live_and_def - {tmp}:
-                        n2 = self.get_node(tmp2)
-                        self.add_edge(n1, n2)
+                    for tmp2 in live_and_def:
+                        if tmp2 is not tmp:
+                            n2 = self.get_node(tmp2)
+                            self.add_edge(n1, n2)
 
                     # Add clobbered interfering edges:
                     for tmp2 in ins.clobbers:
